@@ -12,38 +12,55 @@ Lemma xsqrt_fin a : 0 <= a -> xsqrt (Fin a) = Fin (sqrt a).
 Proof. intros H; cbn. destruct (Rlt_dec a 0); [lra|reflexivity]. Qed.
 
 (** ** StandardGeometry.distance: which root *)
-(** the choice between two finite candidates (first one [u], second one [v]) *)
+(** the choice between two finite candidates (first one [u], second one [v]); a candidate is
+    discarded when it lies behind the ray or on the sheet of the quadric that does not pass
+    through the vertex ([L_Standard.behind], [L_Standard.sheet]) *)
 Section Choice.
-  Variables zl N u v : R.
+  Variables k Rc zl N : R.
   Hypothesis HN : N <> 0.
 
-  Lemma xinf_mul_N : xabs (xadd (Fin zl) (xmul PInf (Fin N))) = PInf.
+  Definition filt (t : R) : xR := sheet k N zl Rc (behind (Fin t)).
+  Definition on_sheet (t : R) : Prop := 0 <= (Rc - (1 + k) * (zl + t * N)) * Rc.
+
+  Lemma xinf_mul_N : xabs (zat N zl PInf) = PInf.
   Proof.
-    cbn. destruct (Rlt_dec 0 N); [reflexivity|]. destruct (Rlt_dec N 0); [reflexivity|lra].
+    unfold zat. cbn. destruct (Rlt_dec 0 N); [reflexivity|]. destruct (Rlt_dec N 0); [reflexivity|lra].
+  Qed.
+  Lemma sheet_inf : sheet k N zl Rc PInf = PInf.
+  Proof. unfold sheet. destruct (xltb _ _); reflexivity. Qed.
+
+  Lemma filt_keep t : 0 <= t -> on_sheet t -> filt t = Fin t.
+  Proof.
+    intros Ht Hs. unfold filt, behind. cbn [xltb].
+    assert (E : Rltb t 0 = false) by (apply Rltb_false; exact Ht). rewrite E.
+    unfold sheet, zat. cbn [xmul xadd xsub xneg xltb].
+    assert (E2 : Rltb ((Rc + - ((1 + k) * (zl + t * N))) * Rc) 0 = false).
+    { apply Rltb_false. unfold on_sheet in Hs. lra. }
+    rewrite E2. reflexivity.
+  Qed.
+  Lemma filt_cases t : filt t = PInf \/ filt t = Fin t.
+  Proof.
+    unfold filt, behind. cbn [xltb]. destruct (Rltb t 0).
+    - left. apply sheet_inf.
+    - unfold sheet. destruct (xltb _ _); [left|right]; reflexivity.
   Qed.
 
   Definition choose (u v : R) : xR :=
-    let t1' := if Rltb u 0 then PInf else Fin u in
-    let t2' := if Rltb v 0 then PInf else Fin v in
-    let z1 := xadd (Fin zl) (xmul t1' (Fin N)) in
-    let z2 := xadd (Fin zl) (xmul t2' (Fin N)) in
-    if xleb (xabs z1) (xabs z2) then t1' else t2'.
+    if xleb (xabs (zat N zl (filt u))) (xabs (zat N zl (filt v))) then filt u else filt v.
 
-  Lemma choose_second : 0 <= v -> Rabs (zl + v*N) < Rabs (zl + u*N) -> choose u v = Fin v.
+  Lemma choose_second u v : 0 <= v -> on_sheet v -> Rabs (zl + v*N) < Rabs (zl + u*N) -> choose u v = Fin v.
   Proof.
-    intros H2 Hs. unfold choose. cbv zeta.
-    assert (E2 : Rltb v 0 = false) by (apply Rltb_false; exact H2). rewrite E2.
-    destruct (Rltb u 0) eqn:E1.
-    - rewrite xinf_mul_N. cbn. reflexivity.
-    - cbn [xmul xadd xabs xleb]. unfold Rleb. destruct (Rle_dec _ _); [lra|reflexivity].
+    intros H2 Hsh Hs. unfold choose. rewrite (filt_keep v H2 Hsh).
+    destruct (filt_cases u) as [E|E]; rewrite E.
+    - rewrite xinf_mul_N. unfold zat. cbn. reflexivity.
+    - unfold zat. cbn [xmul xadd xabs xleb]. unfold Rleb. destruct (Rle_dec _ _); [lra|reflexivity].
   Qed.
-  Lemma choose_first : 0 <= u -> Rabs (zl + u*N) < Rabs (zl + v*N) -> choose u v = Fin u.
+  Lemma choose_first u v : 0 <= u -> on_sheet u -> Rabs (zl + u*N) < Rabs (zl + v*N) -> choose u v = Fin u.
   Proof.
-    intros H1 Hs. unfold choose. cbv zeta.
-    assert (E1 : Rltb u 0 = false) by (apply Rltb_false; exact H1). rewrite E1.
-    destruct (Rltb v 0) eqn:E2.
-    - rewrite xinf_mul_N. cbn. reflexivity.
-    - cbn [xmul xadd xabs xleb]. unfold Rleb. destruct (Rle_dec _ _); [reflexivity|lra].
+    intros H1 Hsh Hs. unfold choose. rewrite (filt_keep u H1 Hsh).
+    destruct (filt_cases v) as [E|E]; rewrite E.
+    - rewrite xinf_mul_N. unfold zat. cbn. reflexivity.
+    - unfold zat. cbn [xmul xadd xabs xleb]. unfold Rleb. destruct (Rle_dec _ _); [reflexivity|lra].
   Qed.
 End Choice.
 
@@ -72,7 +89,7 @@ Section Select.
     - apply Rltb_false in E. nra.
   Qed.
 
-  Lemma res_cases : res = choose zl N (q / a) (c / q).
+  Lemma res_cases : res = choose k Rc zl N (q / a) (c / q).
   Proof.
     unfold res. rewrite res_unfold. cbv zeta. fold a. fold b. fold c. fold d.
     unfold Reqb. destruct (Req_EM_T a 0) as [E|_]; [contradiction|].
@@ -100,13 +117,14 @@ Section Select.
   Qed.
 
   (** with sg = +-1: if the root (-b - sg sqrt d)/(2a) is in front of the ray and lands
-      strictly nearer to the vertex plane than the other one, the kernel returns it *)
+      strictly nearer to the vertex plane than the other one, and lies on the sheet through the
+      vertex, the kernel returns it *)
   Lemma select_root sg : (sg = 1 \/ sg = -1) ->
     let tv := (- b - sg * sqrt d) / (2*a) in
     let to := (- b + sg * sqrt d) / (2*a) in
-    0 <= tv -> Rabs (zl + tv*N) < Rabs (zl + to*N) -> res = Fin tv.
+    0 <= tv -> on_sheet k Rc zl N tv -> Rabs (zl + tv*N) < Rabs (zl + to*N) -> res = Fin tv.
   Proof.
-    intros Hsg tv to Ht Hsel. rewrite res_cases, cand1, cand2.
+    intros Hsg tv to Ht Hsh Hsel. rewrite res_cases, cand1, cand2.
     destruct sb_pm as [E|E]; rewrite E; destruct Hsg as [G|G]; subst sg tv to.
     - apply choose_first; assumption.
     - replace ((- b - 1 * sqrt d) / (2 * a)) with ((- b + -1 * sqrt d) / (2 * a)) by (f_equal; ring).
